@@ -127,7 +127,8 @@ var props = map[string]propCfg{
 			"record: struct with the same field names and mapped field types in order (rdfToGo, rdffieldToGo); tuples frt.NewTupleN(...) (tupleToGo)",
 			"top-level let: package func with name, type parameters, parameters in order and result type (rfdToGo, lfdParamsToGo, paramsToGo) or package var (rootVarDefToGo)",
 			"calls: the declared name with explicit type arguments if given (varRefToGo), all arguments in source order, a lone unit argument dropped (fcFullApplyGo, fcUnitArgOnly); external types registered under their qualified name (piRegEType)",
+			"partial application (fcPartialApplyGo): a closure whose parameters are _r0.._rk typed by the missing parameter types, calling the callee (explicit type arguments kept) with the supplied arguments first, in source order, then _r0.._rk",
 		},
-		NotDecided: []string{"partial application (fcPartialApplyGo: supplied arguments first, then the closure parameters in order) is not under contract", "that the emitted text compiles together with hand-written client Go (needs the Go type checker)", "csRegisterCtor (references resolve to the var or func by the same rule) registers closures in dictionaries: not under contract", "a match on a generic union emits case U_C without type arguments (observation, a C01-level defect)"},
+		NotDecided: []string{"that the emitted text compiles together with hand-written client Go (needs the Go type checker)", "csRegisterCtor (references resolve to the var or func by the same rule) registers closures in dictionaries: not under contract", "a match on a generic union emits case U_C without type arguments (observation, a C01-level defect)"},
 	},
 }
